@@ -54,24 +54,6 @@ fn parse(spec: &Spec, bytes: &[u8], feed: &Option<Feed>) -> Trace {
     drivers::run(spec, data, &feed, None, true).0
 }
 
-/// The AIGER value as the ASCII parser reports it when an *ordered* AIG was written through
-/// `ascii::write_ordered_aig`.
-fn ordered_as_ascii(a: &AigOwned) -> AigOwned {
-    let mut b = a.clone();
-    let i = a.input_count;
-    b.inputs = (1..=i).map(|v| 2 * v).collect();
-    let mut code = 2 * (i + 1);
-    for l in &mut b.latches {
-        l.0 = Some(code);
-        code = code.wrapping_add(2);
-    }
-    for g in &mut b.ands {
-        g.0 = Some(code);
-        code = code.wrapping_add(2);
-    }
-    b
-}
-
 fn features_dimacs(d: &DimacsDoc, lit: u8, obs: &mut Obs) -> bool {
     let max = dimacs_max(lit);
     let mut any = false;
@@ -236,7 +218,7 @@ pub fn check_forward(c: &Forward, obs: &mut Obs) -> CheckResult {
                     spec,
                     AigDoc {
                         binary: false,
-                        aig: ordered_as_ascii(&d.aig),
+                        aig: drivers::ordered_to_plain(&d.aig),
                         header_fields: d.header_fields,
                     },
                 ),
@@ -259,6 +241,27 @@ pub fn check_forward(c: &Forward, obs: &mut Obs) -> CheckResult {
                     return Ok(());
                 }
             };
+            // Display of a line is its unterminated written form
+            for l in lines {
+                let mut raw = Vec::new();
+                {
+                    let mut w = flussab::DeferredWriter::from_write(&mut raw);
+                    if l.write_with_crate(&mut w, false).is_err() {
+                        continue;
+                    }
+                    let _ = std::io::Write::flush(&mut w);
+                }
+                if let Ok(shown) = l.display_with_crate() {
+                    if shown != String::from_utf8_lossy(&raw) {
+                        fail!(
+                            "C03:btor2:display",
+                            "Display of a line gives {:?} but write_into_unterminated writes {:?}",
+                            shown,
+                            show_bytes(&raw)
+                        );
+                    }
+                }
+            }
             let t = parse(&spec, &bytes, &c.feed);
             compare("forward", &spec, &c.doc.expected(&spec), &t, &bytes)
         }
